@@ -333,7 +333,8 @@ def rules_family(st):
             for pol in POLS[:3]:
                 for rule in ("left", "right", "unique", "all", "deep"):
                     for where in ("at-target", "at-root", "target-itself",
-                                  "target-itself-list", "root-itself"):
+                                  "target-itself-list", "root-itself",
+                                  "lookalike"):
                         check_rule(st, ldoc, ltext, rdoc, rtext, rcanon, pol,
                                    rule, where)
 
@@ -350,6 +351,10 @@ def check_rule(st, ldoc, ltext, rdoc, rtext, rcanon, pol, rule, where):
     at = ("t",)
     if where == "at-target":
         mergeat, rulepath = "/t", "/t/x"
+        target = corpus.canon(ldoc["t"])
+    elif where == "lookalike":
+        # a rule for /tx is no rule for anything under the merge point /t
+        mergeat, rulepath, refrule = "/t", "/tx", None
         target = corpus.canon(ldoc["t"])
     elif where == "target-itself":
         # the rule names the merge point: it governs the right-hand root
@@ -375,7 +380,7 @@ def check_rule(st, ldoc, ltext, rdoc, rtext, rcanon, pol, rule, where):
             "segs": [], "policies": pol, "rules": {rulepath: rule},
             "where": where}
     refpol = dict(pol)
-    refpol["rules"] = {refrule: rule}
+    refpol["rules"] = {refrule: rule} if refrule is not None else {}
     try:
         sub = rm.merge(target, rcanon, refpol)
     except rm.MergeError:
